@@ -11,7 +11,9 @@ open Cherab.Props.C11
 #print axioms kkt_sufficient
 #print axioms vmax_pos_iff
 #print axioms nnls_norm_degenerate
+#print axioms normaliser_pos
 #print axioms nnls_wrapper_correct
+#print axioms nnls_wrapper_current
 #print axioms lstsq_wrapper_correct
 #print axioms sart_formula
 #print axioms sart_formula_doc
